@@ -100,7 +100,7 @@ def module_closure_files(module):
     seen, todo, files = set(), [module], []
     while todo:
         m = todo.pop()
-        if m in seen or not m.startswith("CV"):
+        if m in seen or not (m.startswith("CV") or m.startswith("Drv")):
             continue
         seen.add(m)
         path = os.path.join(LEAN, m.replace(".", "/") + ".lean")
